@@ -8,7 +8,7 @@ import re
 V = os.path.dirname(os.path.dirname(os.path.abspath(__file__)))
 sw = json.load(open(os.path.join(V, "seeded", "SWEEP.json")))
 rows = []
-for s in sorted(d for d in os.listdir(os.path.join(V, "seeded")) if os.path.isdir(os.path.join(V, "seeded", d)) and not d.startswith("benign_")):
+for s in sorted(d for d in os.listdir(os.path.join(V, "seeded")) if os.path.isdir(os.path.join(V, "seeded", d)) and not d.startswith("benign")):
     m = json.load(open(os.path.join(V, "seeded", s, "meta.json")))
     v = sw.get(s, {})
     summ = re.sub(r"\s+", " ", m["summary"]).replace("|", "/")
